@@ -305,10 +305,9 @@ fn variant_ty_by_index(goenv: &GlobalGoEnv, ty: &tast::Ty, index: usize) -> goty
     tast_ty_to_go_type(&ty)
 }
 
-fn go_package_alias(package_path: &str) -> String {
-    let last_segment = package_path.rsplit('/').next().unwrap_or(package_path);
+fn sanitize_package_alias(text: &str) -> String {
     let mut alias = String::new();
-    for ch in last_segment.chars() {
+    for ch in text.chars() {
         if ch.is_ascii_alphanumeric() {
             alias.push(ch);
         } else {
@@ -322,6 +321,48 @@ fn go_package_alias(package_path: &str) -> String {
         alias.insert(0, '_');
     }
     alias
+}
+
+fn last_path_segment(package_path: &str) -> &str {
+    package_path.rsplit('/').next().unwrap_or(package_path)
+}
+
+/// The name a Go package is referred to by in the emitted file. It is the last segment of the
+/// import path made an identifier, or the whole path made an identifier when two imported
+/// packages (or a package and the runtime's own `fmt`) would otherwise share it.
+fn go_package_alias(goenv: &GlobalGoEnv, package_path: &str) -> String {
+    let base = sanitize_package_alias(last_path_segment(package_path));
+    let extern_paths = goenv
+        .genv
+        .value_env
+        .extern_funcs
+        .values()
+        .map(|f| f.package_path.as_str())
+        .chain(
+            goenv
+                .genv
+                .type_env
+                .extern_types
+                .values()
+                .filter_map(|t| t.package_path.as_deref()),
+        );
+    let clashes = std::iter::once("fmt").chain(extern_paths).any(|other| {
+        other != package_path && sanitize_package_alias(last_path_segment(other)) == base
+    });
+    if clashes {
+        sanitize_package_alias(package_path)
+    } else {
+        base
+    }
+}
+
+/// An import spec that binds exactly the name the emitted code uses for the package.
+fn extern_import_spec(goenv: &GlobalGoEnv, package_path: &str) -> goast::ImportSpec {
+    let alias = go_package_alias(goenv, package_path);
+    goast::ImportSpec {
+        alias: (alias != last_path_segment(package_path)).then_some(alias),
+        path: package_path.to_string(),
+    }
 }
 
 fn substitute_ty_params(ty: &tast::Ty, subst: &HashMap<String, tast::Ty>) -> tast::Ty {
@@ -1451,7 +1492,7 @@ fn compile_cexpr(goenv: &GlobalGoEnv, e: &anf::CExpr) -> goast::Expr {
             } else if let anf::ImmExpr::ImmVar { name, .. } = &func
                 && let Some(extern_fn) = goenv.genv.value_env.extern_funcs.get(name)
             {
-                let alias = go_package_alias(&extern_fn.package_path);
+                let alias = go_package_alias(goenv, &extern_fn.package_path);
                 goast::Expr::Call {
                     func: Box::new(goast::Expr::Var {
                         name: format!("{}.{}", alias, extern_fn.go_name),
@@ -2348,20 +2389,14 @@ pub fn go_file(
         let mut extra_specs = Vec::new();
         for extern_fn in goenv.genv.value_env.extern_funcs.values() {
             if existing_imports.insert(extern_fn.package_path.clone()) {
-                extra_specs.push(goast::ImportSpec {
-                    alias: None,
-                    path: extern_fn.package_path.clone(),
-                });
+                extra_specs.push(extern_import_spec(&goenv, &extern_fn.package_path));
             }
         }
         for extern_ty in goenv.genv.type_env.extern_types.values() {
             if let Some(package_path) = &extern_ty.package_path
                 && existing_imports.insert(package_path.clone())
             {
-                extra_specs.push(goast::ImportSpec {
-                    alias: None,
-                    path: package_path.clone(),
-                });
+                extra_specs.push(extern_import_spec(&goenv, package_path));
             }
         }
 
@@ -2536,7 +2571,7 @@ fn gen_type_definition(goenv: &GlobalGoEnv) -> Vec<goast::Item> {
 
     for (name, ext) in goenv.genv.type_env.extern_types.iter() {
         if let Some(package_path) = &ext.package_path {
-            let alias = go_package_alias(package_path);
+            let alias = go_package_alias(goenv, package_path);
             let go_ty = goty::GoType::TName {
                 name: format!("{}.{}", alias, ext.go_name),
             };
